@@ -560,6 +560,7 @@ func (e *Env) evalQuant(x *EQuant) Val {
 					e.fail("dom() of non-map %s", b.A.exprString())
 				}
 				dom = u.mapDom(env.cur, m.Ty, m.T)
+				dom = Ite(Eq(m.T, IntN(0)), ConstArray(dom.Sort, TFalse), dom)
 				kt = mt.Key()
 			}
 			ks := keySort(dom.Sort)
@@ -649,7 +650,9 @@ func (e *Env) evalCall(x *ECall) Val {
 		if v.Ty == nil {
 			e.fail("dom of untyped value")
 		}
-		return Val{T: u.mapDom(e.cur, v.Ty, v.T), isDom: true}
+		d := u.mapDom(e.cur, v.Ty, v.T)
+		// the nil map has an empty domain
+		return Val{T: Ite(Eq(v.T, IntN(0)), ConstArray(d.Sort, TFalse), d), isDom: true}
 	case "fresh":
 		v := e.eval(x.Args[0])
 		return spec(And(App(SBool, ">=", v.T, u.top(e.old)), App(SBool, "<", v.T, u.top(e.cur))))
@@ -834,12 +837,16 @@ type loc struct {
 	ref   *Term // index in the array
 	sub   *Term // key within a map entry array
 	text  string
+	region string
 }
 
 func (e *Env) evalLoc(x Expr) []loc {
 	u := e.u
 	switch x := x.(type) {
 	case *EIdent:
+		if _, ok := u.g.specs.Regions[x.Name]; ok {
+			return []loc{{region: x.Name, text: x.Name}}
+		}
 		if so, ok := u.g.specs.GhostVars[x.Name]; ok {
 			s, _ := e.sortOfName(so)
 			return []loc{{key: "G:" + x.Name, sort: s, whole: true, text: x.Name}}
